@@ -51,9 +51,12 @@ func (w *WaterMark) Init(closer *Closer) {
 
 // Begin sets the last index to the given value.
 func (w *WaterMark) Begin(index uint64) {
-	w.setLastIndex(index)
+	// Count first, publish second: tryAdvance only scans up to lastIndex, so the
+	// index must already be pending when it becomes visible there.
+	w.addCount(index, 1)
 	VerifYield("wm.begin.afterLast")
-	w.addIndex(index, 1)
+	w.setLastIndex(index)
+	w.tryAdvance()
 }
 
 // BeginMany works like Begin but accepts multiple indices.
@@ -61,10 +64,11 @@ func (w *WaterMark) BeginMany(indices []uint64) {
 	if len(indices) == 0 {
 		return
 	}
-	w.setLastIndex(indices[len(indices)-1])
 	for _, idx := range indices {
-		w.addIndex(idx, 1)
+		w.addCount(idx, 1)
 	}
+	w.setLastIndex(indices[len(indices)-1])
+	w.tryAdvance()
 }
 
 // Done sets a single index as done.
@@ -134,14 +138,22 @@ func (w *WaterMark) addIndex(index uint64, delta int32) {
 	if index == 0 {
 		return
 	}
-	win := w.ensureWindow(index)
+	w.addCount(index, delta)
+	w.tryAdvance()
+}
+
+// addCount applies delta to the slot of index without advancing the mark.
+func (w *WaterMark) addCount(index uint64, delta int32) {
+	if index == 0 {
+		return
+	}
+	w.ensureWindow(index)
+	win := w.loadWindow()
 	VerifYield("wm.add.afterEnsure")
-	offset := index - win.base
-	if offset < uint64(len(win.slots)) {
-		win.slots[offset].Add(delta)
+	if index >= win.base && index-win.base < uint64(len(win.slots)) {
+		win.slots[index-win.base].Add(delta)
 	}
 	VerifYield("wm.add.afterSlot")
-	w.tryAdvance()
 }
 
 func (w *WaterMark) setLastIndex(index uint64) {
